@@ -27,7 +27,7 @@ RULE = ('case = (served subset, supported transfer-syntax subset, list of (abstr
         'list)); distinct = same tuple; non-trivial = at least one context proposed')
 ASSUMPTIONS = ['user information item last, Maximum Length first sub-item (what conformant peers send)']
 REQUIRED = ['oracle.reply-structure', 'oracle.accept-iff', 'oracle.routing', 'oracle.titles-repeated',
-            'oracle.extra-user-items', 'oracle.duplicate-transfer-syntax-entries', 'oracle.entity-also-scu', 'oracle.entity-reconfigured']
+            'oracle.extra-user-items', 'oracle.duplicate-transfer-syntax-entries', 'oracle.entity-also-scu', 'oracle.entity-reconfigured', 'sim.logging-at-debug-level']
 
 CLASSES = [b'1.2.840.10008.1.1', b'1.2.840.10008.5.1.4.1.1.2', b'1.2.840.10008.5.1.4.1.2.1.1']
 STRANGER = b'1.2.840.10008.5.1.4.1.1.999'
@@ -77,6 +77,10 @@ def plan(tier, seed):
     for part in chunked(range(NTCP[tier]), 8):
         if part:
             specs.append({'name': 'tcp', 'lo': part[0], 'hi': part[-1] + 1})
+    # the same work once more in a process whose logging is turned up to DEBUG (vf/runner.py)
+    specs.append({'name': 'sweep', 'configs': [(5, 3), (7, 15), (2, 6)], 'n': 1, 'debug_logging': True})
+    specs.append({'name': 'random', 'lo': 0, 'hi': 200, 'debug_logging': True})
+    specs.append({'name': 'tcp', 'lo': 0, 'hi': 8, 'debug_logging': True})
     return specs
 
 
@@ -85,6 +89,8 @@ NTCP = {'quick': 96, 'thorough': 2400}
 
 def run_shard(spec, tier, seed):
     res = Result()
+    if spec.get('debug_logging'):
+        res.count('sim.logging-at-debug-level')
     if spec['name'] == 'tcp':
         from . import c09tcp
         for i in range(spec['lo'], spec['hi']):
@@ -99,6 +105,8 @@ def run_shard(spec, tier, seed):
             for c in range(0, NDISTINCT, 7):
                 reuse_case(res, {'served': served, 'ts': ts, 'contexts': [c, (c * 3 + 1) % NDISTINCT],
                                  'ids': [1, 3], 'reuse': True})
+                reuse_case(res, {'served': served, 'ts': ts, 'contexts': [c, (c * 3 + 1) % NDISTINCT],
+                                 'ids': [1, 3], 'reuse': True, 'retune': True})
             # every optional user item with a stride of the single-context requests (all of them
             # in the thorough tier)
             step = 16 if spec['n'] < 2 else 1
@@ -196,14 +204,24 @@ def reuse_case(res, case):
     res.evaluations += 1
     res.distinct.add('reuse|%d|%d|%s' % (case['served'], case['ts'], case['contexts']))
     res.count('oracle.entity-reconfigured')
+    phase_supported = []
     with stubdul.stubbed() as Stub:
         ae = applicationentity.AE('ACCEPTOR', 0, supported_ts=[t.decode() for t in supported],
                                   bind_and_activate=False)
         try:
             replies = []
+            retune = bool(case.get('retune'))
             for phase, classes in enumerate((served, later)):
-                if classes:
+                if retune:
+                    # ... or changes the transfer syntaxes it supports (complement set)
+                    if phase == 0:
+                        ae.add_scp(Recorder([c.decode() for c in served + later]))
+                    else:
+                        supported = [t for t in TSS if t not in supported] or supported
+                        ae.supported_ts = frozenset(t.decode() for t in supported)
+                elif classes:
                     ae.add_scp(Recorder([c.decode() for c in classes]))
+                phase_supported.append(list(supported))
                 Stub.preload = [P.AAssociateRqPDU.decode(R.build_pdu(tree)), P.AReleaseRqPDU()]
                 try:
                     asceprovider.AssociationAcceptor(stubdul.FakeRequest(), ('peer', 1), ae, max_pdu_length=16384)
@@ -216,7 +234,9 @@ def reuse_case(res, case):
                 replies.append(R.parse_pdu(acs[0].encode()) if len(acs) == 1 else None)
         finally:
             ae.server_close()
-    for phase, (ac, now_served) in enumerate(zip(replies, (served, served + later))):
+    served_by_phase = (served + later, served + later) if case.get('retune') else (served, served + later)
+    for phase, (ac, now_served) in enumerate(zip(replies, served_by_phase)):
+        supported = phase_supported[phase]
         if ac is None:
             res.violation('no-single-associate-ac', 'C09.reply', 'reuse phase %d: no single A-ASSOCIATE-AC' % phase,
                           case)
